@@ -25,6 +25,9 @@ def main():
     finally:
         # always hand back what was observed so far
         try:
+            import array
+            with open(outpath + '.nt', 'wb') as f:
+                f.write(array.array('Q', sorted(rec.nontrivial)).tobytes())
             with open(outpath, 'w') as f:
                 json.dump(rec.dump(), f)
         except Exception:
